@@ -39,6 +39,7 @@ def main(tier):
         I = isas[name]
         d = I.dis
         e = -1 if I.be else 1
+        permode = []
         for idx in range(I.nsets):
             I.set_mode(idx)
             specs = isa.module_specs(I, idx)
@@ -102,6 +103,30 @@ def main(tier):
                           real=ans, failing_input_found=False)
             if len(ck.cov["samples"]) < 4 and inputs:
                 ck.sample({"isa": label, "bytes": inputs[0][1].hex(), "route": routes[0][:8]})
+            permode.append((idx, ref_order, [bs for _, bs in inputs[:(150 if quick else 1500)]]))
+        if I.nsets > 1:
+            # the same bytes decoded in every mode in turn on the one disassembler object: the index of
+            # each mode must still answer as that mode's own scan
+            isa.reset(d)
+            for k in range(max(len(p[2]) for p in permode)):
+                for (idx0, _, ins) in permode:
+                    if k >= len(ins):
+                        continue
+                    bs = ins[k]
+                    for (idx, ref_order, _) in permode:
+                        I.set_mode(idx)
+                        real = isa.real_decode(d, bs, fresh=False)
+                        real_fp = (real[0], isa.fingerprint(real[1]) if real[0] == "ok" else real[1])
+                        ref = isa.ref_scan(d, ref_order, bs, e)
+                        ref_fp = (ref[0], isa.fingerprint(ref[1]) if ref[0] == "ok" else ref[1])
+                        ck.case(("%s/%d" % (name, idx), "x", bs), nontrivial=real[0] == "ok")
+                        ck.count("cross-mode.%s" % real[0])
+                        if real_fp != ref_fp:
+                            ck.report("C04:%s/%d:cross-mode" % (name, idx),
+                                      "%s mode %d: disassemble(%s) right after the same bytes in another mode = %r but this mode's most-constrained-first scan gives %r" % (name, idx, bs.hex(), real_fp, ref_fp),
+                                      "oracle", "Amoco.Dis.Props.lookup_eq_scan", case={"isa": name, "mode": idx, "bytes": bs.hex(), "modes": [p[0] for p in permode]},
+                                      real=real_fp, expected=ref_fp)
+            I.set_mode(0)
     drv.close()
     for b in broken:
         ck.report("C04:proof-obligation", "proof obligation broken: %s" % b[:300], "proof-obligation", b[:2000], failing_input_found=False)
